@@ -151,6 +151,13 @@ def line_terminator(pattern: bytes, flags: int):
 LINE_SPLITTERS = {'splitlines': {b'\n', b'\r', b'\r\n'}}
 
 
+def _is_trigger(v: bytes) -> bool:
+    """a "line boundary followed by a dot" literal: what the sender looks
+    for to find dots at line starts (end-of-data markers end in a line
+    break and are something else)"""
+    return v.endswith(b'.') and (b'\n' in v or b'\r' in v)
+
+
 def r55(e: Engine, rep: Report):
     got = _module_pattern(e, READER_MOD, 'fullline_pattern')
     if got is None:
@@ -182,10 +189,29 @@ def r55(e: Engine, rep: Report):
     c = e.p.cls(SENDER)
     nlit = 0
     for mname in ('_process_part', '__iter__'):
-        m = c.methods.get(mname)
-        if m is None:
+        if c.methods.get(mname) is None:
             rep.error('anchor vanished: DataSender.' + mname)
-            continue
+    # literals kept as class-level constants count like literals in the
+    # code that uses them
+    for st in c.node.body:
+        if isinstance(st, ast.Assign) and \
+                isinstance(st.value, ast.Constant) and \
+                isinstance(st.value.value, bytes) and \
+                _is_trigger(st.value.value):
+            # a "line boundary + dot" trigger (the end-of-data markers,
+            # which end in a line break, are not stuffing triggers)
+            nlit += 1
+            rep.evaluations += 1
+            v = st.value.value
+            rep.check(v == term + b'.', 'R5.5', SENDER,
+                      'line-boundary literal %r' % v,
+                      'the sender decides where a line starts with %r '
+                      'while the reader ends lines at %r: a dot that the '
+                      'reader will see at the start of a line is not '
+                      'stuffed' % (v, term),
+                      loc='%s:%d' % (c.module.relpath, st.lineno),
+                      reason='equals the reader\'s terminator (+ ".")')
+    for mname, m in sorted(c.methods.items()):
         rep.functions.add(m.qname)
         # library calls that decide where lines begin bring their own set of
         # line boundaries (table LINE_SPLITTERS): it has to be the reader's
@@ -208,10 +234,10 @@ def r55(e: Engine, rep: Report):
                           'reader')
         for n in ast.walk(m.node):
             if isinstance(n, ast.Constant) and isinstance(n.value, bytes) \
-                    and (b'\n' in n.value or b'\r' in n.value):
+                    and _is_trigger(n.value):
                 nlit += 1
                 rep.evaluations += 1
-                rep.check(n.value in (term, term + b'.'), 'R5.5', m.qname,
+                rep.check(n.value == term + b'.', 'R5.5', m.qname,
                           'line-boundary literal %r' % n.value,
                           'the sender decides where a line starts with %r '
                           'while the reader ends lines at %r: a dot that '
